@@ -182,6 +182,10 @@ func (builder *RuleBuilder) BuildRuleFromResource(name, version string, resource
 		}
 	}
 
+	if errReporter.HasError() {
+		// forget the nodes of rules that were parsed but not accepted
+		knowledgeBase.WorkingMemory.Prune(knowledgeBase)
+	}
 	knowledgeBase.WorkingMemory.IndexVariables()
 
 	// Get the loading duration.
